@@ -475,6 +475,20 @@ Error CodeHolder::grow_buffer(CodeBuffer* cb, size_t n) noexcept {
     size_t old = capacity;
     size_t capacity_increase = capacity < Globals::kGrowThreshold ? capacity : Globals::kGrowThreshold;
 
+    // Once the capacity grows linearly, calculate the number of steps instead of iterating (a huge request
+    // would otherwise take billions of iterations before it's refused).
+    if (capacity >= Globals::kGrowThreshold && capacity - Globals::kAllocOverhead < required) {
+      size_t missing = required - (capacity - Globals::kAllocOverhead);
+      size_t steps = missing / Globals::kGrowThreshold + size_t((missing % Globals::kGrowThreshold) != 0u);
+
+      if (ASMJIT_UNLIKELY(steps > (std::numeric_limits<size_t>::max() - capacity) / Globals::kGrowThreshold)) {
+        return make_error(Error::kOutOfMemory);
+      }
+
+      capacity += steps * Globals::kGrowThreshold;
+      break;
+    }
+
     capacity += capacity_increase;
 
     // Overflow.
